@@ -1,0 +1,302 @@
+//! Inspector for the verification harness (cargo feature `verif`): a read-only walk of the
+//! whole table that reports what is there without judging it. Meant for quiescent points;
+//! every walk is bounded so that a corrupted structure cannot hang the inspector.
+#![allow(missing_docs, missing_debug_implementations)]
+
+use super::*;
+use std::collections::HashSet as StdHashSet;
+
+/// Upper bound on the number of nodes reported for one bin.
+const WALK_LIMIT: usize = 1 << 22;
+
+pub struct Constants {
+    pub maximum_capacity: usize,
+    pub default_capacity: usize,
+    pub treeify_threshold: usize,
+    pub untreeify_threshold: usize,
+    pub min_treeify_capacity: usize,
+    pub min_transfer_stride: isize,
+    pub resize_stamp_bits: usize,
+    pub resize_stamp_shift: usize,
+    pub max_resizers: isize,
+    pub ncpu: usize,
+}
+
+pub fn constants() -> Constants {
+    Constants {
+        maximum_capacity: MAXIMUM_CAPACITY,
+        default_capacity: DEFAULT_CAPACITY,
+        treeify_threshold: TREEIFY_THRESHOLD,
+        untreeify_threshold: UNTREEIFY_THRESHOLD,
+        min_treeify_capacity: MIN_TREEIFY_CAPACITY,
+        min_transfer_stride: MIN_TRANSFER_STRIDE,
+        resize_stamp_bits: RESIZE_STAMP_BITS,
+        resize_stamp_shift: RESIZE_STAMP_SHIFT,
+        max_resizers: MAX_RESIZERS,
+        ncpu: num_cpus(),
+    }
+}
+
+/// The stamp `transfer`, `help_transfer`, `add_count` and `try_presize` use for a table of
+/// `n` bins (not yet shifted).
+pub fn resize_stamp(n: usize) -> isize {
+    HashMap::<(), (), ()>::resize_stamp(n)
+}
+
+pub struct NodeDump<'g, K, V> {
+    pub addr: usize,
+    pub hash: u64,
+    pub key: &'g K,
+    /// address of the value allocation (0 = null)
+    pub value_addr: usize,
+    pub value: Option<&'g V>,
+    pub locked: bool,
+}
+
+pub struct TreeNodeDump<'g, K, V> {
+    pub node: NodeDump<'g, K, V>,
+    pub parent: usize,
+    pub left: usize,
+    pub right: usize,
+    pub prev: usize,
+    pub next: usize,
+    pub red: bool,
+}
+
+pub enum BinDump<'g, K, V> {
+    Empty,
+    Moved,
+    /// a `TreeNode` directly at the head of a bin (never legal)
+    BareTreeNode,
+    List {
+        locked: bool,
+        nodes: Vec<NodeDump<'g, K, V>>,
+        /// the walk met a non-`Node` entry or hit the walk limit
+        malformed: bool,
+    },
+    Tree {
+        addr: usize,
+        locked: bool,
+        lock_state: i64,
+        waiter_null: bool,
+        root: usize,
+        first: usize,
+        /// nodes in `first`/`next` order
+        list: Vec<usize>,
+        /// every node reachable through `first`/`next` or from `root` via `left`/`right`
+        nodes: Vec<TreeNodeDump<'g, K, V>>,
+        malformed: bool,
+    },
+}
+
+pub struct TableDump<'g, K, V> {
+    pub table_addr: usize,
+    /// number of bins (0 = no table)
+    pub len: usize,
+    pub size_ctl: isize,
+    pub transfer_index: isize,
+    pub count: isize,
+    /// `HashMap::next_table` is null
+    pub map_next_table_null: bool,
+    /// the current table's own `next_table` is null
+    pub table_next_table_null: bool,
+    pub bins: Vec<BinDump<'g, K, V>>,
+}
+
+fn sh_addr<T>(s: Shared<'_, T>) -> usize {
+    // safety: the pointer is only turned into an integer
+    unsafe { s.as_ptr() as usize }
+}
+
+fn node_dump<'g, K, V>(
+    addr: usize,
+    n: &'g Node<K, V>,
+    guard: &'g Guard<'_>,
+) -> NodeDump<'g, K, V> {
+    let v = n.value.load(Ordering::SeqCst, guard);
+    NodeDump {
+        addr,
+        hash: n.hash,
+        key: &n.key,
+        value_addr: sh_addr(v),
+        // safety: loaded under the guard
+        value: unsafe { v.as_ref() }.map(|l| &**l),
+        locked: n.lock.is_locked(),
+    }
+}
+
+impl<K, V, S> HashMap<K, V, S> {
+    /// Length of the current table (0 if none), read without touching anything else.
+    pub fn verif_table_len(&self, guard: &Guard<'_>) -> usize {
+        let table = self.table.load(Ordering::SeqCst, guard);
+        if table.is_null() {
+            0
+        } else {
+            // safety: loaded under the guard
+            unsafe { table.deref() }.len()
+        }
+    }
+
+    /// Current control words `(size_ctl, transfer_index, count)`.
+    pub fn verif_control(&self) -> (isize, isize, isize) {
+        (
+            self.size_ctl.load(Ordering::SeqCst),
+            self.transfer_index.load(Ordering::SeqCst),
+            self.count.load(Ordering::SeqCst),
+        )
+    }
+
+    /// The collector of this map.
+    pub fn verif_collector(&self) -> &Collector {
+        &self.collector
+    }
+
+    /// Walks the current table. Only meaningful while no operation is in flight.
+    pub fn verif_dump<'g>(&'g self, guard: &'g Guard<'_>) -> TableDump<'g, K, V> {
+        let table = self.table.load(Ordering::SeqCst, guard);
+        let mut dump = TableDump {
+            table_addr: sh_addr(table),
+            len: 0,
+            size_ctl: self.size_ctl.load(Ordering::SeqCst),
+            transfer_index: self.transfer_index.load(Ordering::SeqCst),
+            count: self.count.load(Ordering::SeqCst),
+            map_next_table_null: self.next_table.load(Ordering::SeqCst, guard).is_null(),
+            table_next_table_null: true,
+            bins: Vec::new(),
+        };
+        if table.is_null() {
+            return dump;
+        }
+        // safety: loaded under the guard
+        let t: &'g Table<K, V> = unsafe { table.deref() };
+        dump.len = t.len();
+        dump.table_next_table_null = t.next_table(guard).is_null();
+        for i in 0..t.len() {
+            let bin = t.bin(i, guard);
+            if bin.is_null() {
+                dump.bins.push(BinDump::Empty);
+                continue;
+            }
+            // safety: loaded under the guard
+            let entry: &'g Linked<BinEntry<K, V>> = unsafe { bin.deref() };
+            let d = match **entry {
+                BinEntry::Moved => BinDump::Moved,
+                BinEntry::TreeNode(_) => BinDump::BareTreeNode,
+                BinEntry::Node(ref head) => {
+                    let mut nodes = Vec::new();
+                    let mut malformed = false;
+                    let mut p = bin;
+                    let mut seen = StdHashSet::new();
+                    while !p.is_null() {
+                        if !seen.insert(sh_addr(p)) || nodes.len() >= WALK_LIMIT {
+                            malformed = true;
+                            break;
+                        }
+                        // safety: loaded under the guard
+                        let e: &'g Linked<BinEntry<K, V>> = unsafe { p.deref() };
+                        match **e {
+                            BinEntry::Node(ref n) => {
+                                nodes.push(node_dump(sh_addr(p), n, guard));
+                                p = n.next.load(Ordering::SeqCst, guard);
+                            }
+                            _ => {
+                                malformed = true;
+                                break;
+                            }
+                        }
+                    }
+                    BinDump::List {
+                        locked: head.lock.is_locked(),
+                        nodes,
+                        malformed,
+                    }
+                }
+                BinEntry::Tree(ref tb) => {
+                    let mut malformed = false;
+                    let mut nodes: Vec<TreeNodeDump<'g, K, V>> = Vec::new();
+                    let mut seen = StdHashSet::new();
+                    let mut list = Vec::new();
+                    let first = tb.first.load(Ordering::SeqCst, guard);
+                    let root = tb.root.load(Ordering::SeqCst, guard);
+                    let mut visit = |p: Shared<'g, BinEntry<K, V>>,
+                                     nodes: &mut Vec<TreeNodeDump<'g, K, V>>,
+                                     malformed: &mut bool|
+                     -> Option<(usize, usize, usize)> {
+                        // returns (next, left, right) of a node seen for the first time
+                        // safety: loaded under the guard
+                        let e: &'g Linked<BinEntry<K, V>> = unsafe { p.deref() };
+                        match **e {
+                            BinEntry::TreeNode(ref tn) => {
+                                let next = tn.node.next.load(Ordering::SeqCst, guard);
+                                let left = tn.left.load(Ordering::SeqCst, guard);
+                                let right = tn.right.load(Ordering::SeqCst, guard);
+                                if seen.insert(sh_addr(p)) {
+                                    nodes.push(TreeNodeDump {
+                                        node: node_dump(sh_addr(p), &tn.node, guard),
+                                        parent: sh_addr(tn.parent.load(Ordering::SeqCst, guard)),
+                                        left: sh_addr(left),
+                                        right: sh_addr(right),
+                                        prev: sh_addr(tn.prev.load(Ordering::SeqCst, guard)),
+                                        next: sh_addr(next),
+                                        red: tn.red.load(Ordering::SeqCst),
+                                    });
+                                }
+                                Some((sh_addr(next), sh_addr(left), sh_addr(right)))
+                            }
+                            _ => {
+                                *malformed = true;
+                                None
+                            }
+                        }
+                    };
+                    // the traversal list
+                    let mut p = first;
+                    let mut on_list = StdHashSet::new();
+                    while !p.is_null() {
+                        if !on_list.insert(sh_addr(p)) || list.len() >= WALK_LIMIT {
+                            malformed = true;
+                            break;
+                        }
+                        list.push(sh_addr(p));
+                        match visit(p, &mut nodes, &mut malformed) {
+                            Some((next, _, _)) => {
+                                p = Shared::from(next as *mut Linked<BinEntry<K, V>>);
+                            }
+                            None => break,
+                        }
+                    }
+                    // the tree
+                    let mut stack = vec![sh_addr(root)];
+                    let mut in_tree = StdHashSet::new();
+                    while let Some(a) = stack.pop() {
+                        if a == 0 {
+                            continue;
+                        }
+                        if !in_tree.insert(a) || in_tree.len() >= WALK_LIMIT {
+                            malformed = true;
+                            continue;
+                        }
+                        let p = Shared::from(a as *mut Linked<BinEntry<K, V>>);
+                        if let Some((_, l, r)) = visit(p, &mut nodes, &mut malformed) {
+                            stack.push(l);
+                            stack.push(r);
+                        }
+                    }
+                    BinDump::Tree {
+                        addr: sh_addr(bin),
+                        locked: tb.lock.is_locked(),
+                        lock_state: tb.lock_state.load(Ordering::SeqCst),
+                        waiter_null: tb.waiter.load(Ordering::SeqCst, guard).is_null(),
+                        root: sh_addr(root),
+                        first: sh_addr(first),
+                        list,
+                        nodes,
+                        malformed,
+                    }
+                }
+            };
+            dump.bins.push(d);
+        }
+        dump
+    }
+}
